@@ -264,9 +264,8 @@ func (s *SymDense) AddSym(a, b Symmetric) {
 	}
 	s.reuseAsNonZeroed(n)
 
-	if a, ok := a.(RawSymmetricer); ok {
-		if b, ok := b.(RawSymmetricer); ok {
-			amat, bmat := a.RawSymmetric(), b.RawSymmetric()
+	if amat, ok := rawUpperSymmetric(a); ok {
+		if bmat, ok := rawUpperSymmetric(b); ok {
 			if s != a {
 				s.checkOverlap(generalFromSymmetric(amat))
 			}
@@ -300,21 +299,16 @@ func (s *SymDense) CopySym(a Symmetric) int {
 	if n == 0 {
 		return 0
 	}
-	switch a := a.(type) {
-	case RawSymmetricer:
-		amat := a.RawSymmetric()
-		if amat.Uplo != blas.Upper {
-			panic(badSymTriangle)
-		}
+	if amat, ok := rawUpperSymmetric(a); ok {
 		for i := 0; i < n; i++ {
 			copy(s.mat.Data[i*s.mat.Stride+i:i*s.mat.Stride+n], amat.Data[i*amat.Stride+i:i*amat.Stride+n])
 		}
-	default:
-		for i := 0; i < n; i++ {
-			stmp := s.mat.Data[i*s.mat.Stride : i*s.mat.Stride+n]
-			for j := i; j < n; j++ {
-				stmp[j] = a.At(i, j)
-			}
+		return n
+	}
+	for i := 0; i < n; i++ {
+		stmp := s.mat.Data[i*s.mat.Stride : i*s.mat.Stride+n]
+		for j := i; j < n; j++ {
+			stmp[j] = a.At(i, j)
 		}
 	}
 	return n
@@ -501,8 +495,7 @@ func (s *SymDense) RankTwo(a Symmetric, alpha float64, x, y Vector) {
 func (s *SymDense) ScaleSym(f float64, a Symmetric) {
 	n := a.SymmetricDim()
 	s.reuseAsNonZeroed(n)
-	if a, ok := a.(RawSymmetricer); ok {
-		amat := a.RawSymmetric()
+	if amat, ok := rawUpperSymmetric(a); ok {
 		if s != a {
 			s.checkOverlap(generalFromSymmetric(amat))
 		}
@@ -540,8 +533,7 @@ func (s *SymDense) SubsetSym(a Symmetric, set []int) {
 		defer restore()
 	}
 
-	if a, ok := a.(RawSymmetricer); ok {
-		raw := a.RawSymmetric()
+	if raw, ok := rawUpperSymmetric(a); ok {
 		if s != a {
 			s.checkOverlap(generalFromSymmetric(raw))
 		}
